@@ -96,6 +96,20 @@ def stmt_tag(case, events, i):
     return tag
 
 
+def single_comment_variants(pid, what, source, case, events, i=0, opts_tag=""):
+    """For a case with several injected comments: the signatures it would have with each comment alone.
+    A failure of a pair is already explained when one of its comments fails alone in the same way."""
+    rd = _ev(events, "Render")
+    ctx = rd.get("slot_ctx") or []
+    if len(ctx) < 2:
+        return []
+    out = []
+    for c in ctx:
+        ev2 = [dict(e, slot_ctx=[c]) if e.get("ev") == "Render" else e for e in events]
+        out.append(signature(pid, what, source, case, ev2, i, opts_tag))
+    return out
+
+
 def signature(pid, what, source, case, events, i=0, opts_tag=""):
     if _ev(events, "Format").get("sort") and what not in ("reparse", "meaning", "tokens", "census"):
         meta = case.get("meta", {}) or {}
